@@ -9,11 +9,9 @@ import (
 // C08 - fault-free synchronous runs decide every height in view 0 whatever the
 // delivery order; nobody asks for a view change or for recovery state.
 //
-// Envelope: with a ledger that starts at height 0 the library arms a zero
-// timer at block index 1 (its lastBlockIndex zero value makes the "same
-// height" timer adjustment fire), so "every message is delivered before the
-// next timer expires" cannot hold there whatever the order; block index 1 is
-// therefore outside the property's precondition and is not judged (O1).
+// (Until fix D14 the library armed a zero timer at block index 1 of a ledger starting at
+// height 0 - the zero value of lastBlockIndex made the "previous height" timer adjustment
+// fire - and this oracle exempted that height; the exemption is gone with the defect.)
 type OracleC08 struct {
 	BaseOracle
 	s *Sim
@@ -33,7 +31,7 @@ func NewOracleC08(s *Sim) *OracleC08 {
 }
 func (o *OracleC08) Name() string     { return "C08" }
 
-func (o *OracleC08) exempt(h uint32) bool { return h == 1 }
+func (o *OracleC08) exempt(h uint32) bool { return false }
 
 func (o *OracleC08) OnOut(n *Node, st *Step, out *Out) {
 	switch out.Kind {
